@@ -345,6 +345,10 @@ def explorers(tier, seed):
             c_m.append(("mmd", K, n, 0, tag, seed, gseed + K * 10 + n))
         for tag in ("l1", "pre_metric"):
             c_w.append(("wasserstein", K, n, 0, tag, seed, gseed + K * 10 + n))
+    # ground costs without the triangle inequality (cosine, squared Euclidean, an arbitrary symmetric matrix) need >= 3 samples to differ from a metric
+    for K, n in [(2, 3), (2, 4), (2, 6), (3, 4), (3, 5)]:
+        for tag in ("cosine", "sqeuclid_p", "pre_sym"):
+            c_w.append(("wasserstein", K, n, 0, tag, seed, gseed + 100 + K * 10 + n))
     rule_p = ("ALL n-tuples of rows from the interior menu (lattice c/(K+2), near one-hot 1e-3/1e-6 per vertex, near-uniform) "
               "for the listed (K,n), plus seed-generic Dirichlet matrices; every target = registry name, class(ovo flag), and "
               "DiscriminativeModel.score on a stub; non-trivial = prediction matrix whose reference score differs from the lower bound by >1e-6")
